@@ -227,9 +227,8 @@ package tls
 //@   ensures rejectNoALPN: cp != 0 && len(proto) == 0 ==> ret != nil
 //@   ensures accept: cp == 0 || (hs.c.vers >= VersionTLS13 && len(proto) != 0) ==> ret == nil
 //@   ensures none: cp == 0 ==> hs.c.utls.localApplicationSettings == old(hs.c.utls.localApplicationSettings)
-//@   ensures actualkey: ret == nil && cp != 0 && has(cfg, hs.serverHello.alpnProtocol) ==> hs.c.utls.localApplicationSettings == cfg[hs.serverHello.alpnProtocol]
-//@   ensures actualmiss: ret == nil && cp != 0 && !has(cfg, hs.serverHello.alpnProtocol) ==> hs.c.utls.localApplicationSettings == old(hs.c.utls.localApplicationSettings)
-//@   note actualkey/actualmiss describe what the code does (lookup under the ServerHello ALPN, silently keeping the old value on a miss); the next clause is what C22 asks for and is NOT satisfied
+//@   ensures miss: ret == nil && cp != 0 && !has(cfg, proto) ==> hs.c.utls.localApplicationSettings == old(hs.c.utls.localApplicationSettings)
+//@   note the next clause is what C22 asks for; it was violated (lookup under the always-empty ServerHello ALPN) and repaired by the fix: commit 7854e18
 //@   ensures DEFECT_C22_localsettings: ret == nil && cp != 0 && has(cfg, proto) ==> hs.c.utls.localApplicationSettings == cfg[proto]
 
 // The client's EncryptedExtensions: sent exactly when the server negotiated ALPS; it carries the
